@@ -51,7 +51,7 @@ var _ RawRegister32 = ParseTXTHeapSize(0)
 // ReadTXTHeapSize reads a TXTHeapSize register from TXT config
 func ReadTXTHeapSize(data TXTConfigSpace) (TXTHeapSize, error) {
 	var u32 uint32
-	buf := bytes.NewReader(data[TXTHeapSizeRegisterOffset:])
+	buf := bytes.NewReader(data.from(TXTHeapSizeRegisterOffset))
 	err := binary.Read(buf, binary.LittleEndian, &u32)
 	if err != nil {
 		return 0, err
